@@ -22,6 +22,9 @@ func Menu() []string {
 	m := append([]string(nil), chainx.BasicKinds...)
 	m = append(m, chainx.ContractKinds...)
 	m = append(m, "v1fc", "v1fc3", "v1fc3", "v1proof", "v1proof", "v1revw", "v1revw", "v1rev", "v2fc", "v2rev", "v2proof")
+	chainx.EnableStoreKinds()
+	m = append(m, chainx.StoreKinds...)
+	m = append(m, "v1revdown")
 	return m
 }
 
@@ -63,6 +66,10 @@ func HistoryVia(r *vh.Run, name string, t *chainx.Tree, ids *IDs, decls map[int]
 		r.Add(c)
 		return nil
 	}
+	// supplements are also requested at intermediate tips, inside reorgs, but only at tips of one
+	// height parity: two consecutive requests then hit different blocks at the same height (what a
+	// value cached per height instead of per block gets wrong)
+	rig.ProbeMod, rig.ProbeRem = 2, uint64(len(t.Blocks)+len(sched))%2
 	rig.Prelude()
 	rig.CompareWithTwin("after NewDBStore")
 	for i, batch := range sched {
@@ -161,6 +168,59 @@ func DirectedExpOrder(r *vh.Run, rng *vh.RNG, name string) {
 		sched = append(sched, alt[i:j])
 	}
 	History(r, name, t, ids, decls, sched, chain.NewMemDB(), "directed:exp-order")
+}
+
+// DirectedRevDown: contracts with far windows, then a block that pulls the WindowEnd of some of them
+// in (a revision to an earlier window), that block reverted by a longer fork, the chain extended
+// past both window ends.  Apply moves the expiration entry to the earlier height; the revert must
+// move it back exactly like a revision that pushed the window out.
+func DirectedRevDown(r *vh.Run, rng *vh.RNG, name string) {
+	net := chainx.NewNet(rng, 1000, 2000, 2)
+	t := chainx.NewTree(net)
+	tip := t.Mine(rng, 0, chainx.Spec{Kinds: []string{"v1pay"}, Dt: 1})
+	var forkAt, revBlk int
+	hit := false
+	msg := Guarded(func() {
+		for i := 0; i < 2; i++ {
+			tip = t.Mine(rng, tip, chainx.Spec{Kinds: []string{"v1fcfar", "v1fcfar"}, Dt: 1})
+		}
+		forkAt = tip
+		for i := 0; i < 2; i++ {
+			tip = t.Mine(rng, tip, chainx.Spec{Kinds: []string{"v1revdown", "v1revdown", "v1pay"}, Dt: 1})
+			for _, k := range t.Blocks[tip].Kinds {
+				if k == "v1revdown" {
+					hit = true
+				}
+			}
+		}
+		revBlk = tip
+		alt := forkAt
+		for i := 0; i < 14; i++ {
+			alt = t.Mine(rng, alt, chainx.Spec{Kinds: []string{"v1pay"}, Dt: 1})
+		}
+		tip = alt
+	})
+	ids := NewIDs()
+	if msg != "" || !hit {
+		c := &vh.Case{Name: name}
+		if msg != "" {
+			c.Oracle("generator-block-rejected", "%s", firstLine(msg))
+		} else {
+			c.Oracle("generator-shape", "no window-lowering revision could be built")
+		}
+		r.Add(c)
+		return
+	}
+	sched := [][]int{pathTo(t, revBlk)}
+	alt := pathTo(t, tip)
+	for i := len(pathTo(t, forkAt)); i < len(alt); i += 4 {
+		j := i + 4
+		if j > len(alt) {
+			j = len(alt)
+		}
+		sched = append(sched, alt[i:j])
+	}
+	History(r, name, t, ids, Declare(t, ids), sched, chain.NewMemDB(), "directed:rev-down")
 }
 
 // DirectedRequireHeight: a v1 contract whose window ends exactly at the require height; the chain
@@ -562,6 +622,10 @@ func Run(r *vh.Run) {
 	for i := 0; i < r.Pick(2, 12); i++ {
 		drng := rng.Fork()
 		Safely(r, "directed-exp-order", func() { DirectedExpOrder(r, drng, fmt.Sprintf("directed-exp-order%d", i)) })
+	}
+	for i := 0; i < r.Pick(2, 12); i++ {
+		wrng := rng.Fork()
+		Safely(r, "directed-rev-down", func() { DirectedRevDown(r, wrng, fmt.Sprintf("directed-rev-down%d", i)) })
 	}
 	drng := rng.Fork()
 	Safely(r, "directed-require-height", func() { DirectedRequireHeight(r, drng, "directed-require-height") })
